@@ -36,6 +36,9 @@ type Check struct {
 	// explicit-state search exchanges newly reached states between processes.
 	Rounds   func(tier string) int
 	Watchdog time.Duration
+	// EnvFor, if set, gives extra environment variables for the worker of (round, shard):
+	// this is how a check enumerates environment configurations (hash seeds, map order).
+	EnvFor func(tier string, round, shard int) []string
 }
 
 type FailGroup struct {
